@@ -137,6 +137,33 @@ func TestC19EnumValues(t *testing.T) {
 			}
 		}
 	}
+	// every payload length up to 2100 bytes, and the neighbourhood of every
+	// power of two up to 128 KiB (internal buffers, fast paths and length
+	// fields have their boundaries there), with all four flag combinations
+	// and position-dependent bytes (so that a shifted or truncated payload
+	// cannot compare equal)
+	var sweep []int
+	for l := 0; l <= 2100; l++ {
+		sweep = append(sweep, l)
+	}
+	for e := 12; e <= 17; e++ {
+		for d := -3; d <= 3; d++ {
+			sweep = append(sweep, (1<<e)+d)
+		}
+	}
+	for _, l := range sweep {
+		payload := make([]byte, l)
+		for i := range payload {
+			payload[i] = byte(i*7 + l)
+		}
+		for flags := 0; flags < 4; flags++ {
+			m := &gbn.PacketData{Seq: uint8(l), FinalChunk: flags&1 != 0, IsPing: flags&2 != 0, Payload: payload}
+			rec.Case(true, fmt.Sprintf("DATA len %d flags %d", l, flags), "data_length_sweep")
+			if v := roundTripValue(m); v != "" {
+				fail(v, m)
+			}
+		}
+	}
 	for _, m := range []gbn.Message{&gbn.PacketFIN{}, &gbn.PacketSYNACK{}} {
 		rec.Case(true, normMsg(m), "no_field")
 		if v := roundTripValue(m); v != "" {
